@@ -14,6 +14,10 @@ from checks import parser_common as pc
 
 PID = "C14"
 ALPHA = [">", ":", "a", "[", "]", " ", "\n", "-", "=", "@", "{", "}", "m", "o", "d", "e"]
+BOM = "\ufeff"
+# the monitor's enumeration also has the backslash (backslash + LF is one Escaped token: the next line is then
+# a continuation, not a line start) and the byte order mark (a word character in front of the first line)
+ALPHA_MON = ALPHA + ["\\", BOM]
 X_MODES = 64
 
 META_KEYS = ["title", "k", "servings", "time", "prep time", "tags", "a b", "[mode]", "[define]", "[duplicate]",
@@ -51,6 +55,8 @@ def inject(text, rng):
         k = rng.random()
         if k < 0.70:
             lines.insert(pos, ml)
+            if pos > 0 and rng.random() < 0.15:
+                lines[pos - 1] += "\\"                      # backslash right before the line break above `>>`
         elif k < 0.80:
             lines[pos:pos] = ["[- open", ml, "close -]"]       # inside a block comment
         elif k < 0.88:
@@ -77,6 +83,8 @@ def generated(rng, n):
             t = "---\n" + rng.choice(YAML_BLOCKS) + rng.choice(["--- \n", "---", "----\n"]) + t
         if rng.random() < 0.25:
             t = t.replace("\n", "\r\n")
+        if rng.random() < 0.08:
+            t = BOM + t                                         # file saved as 'UTF-8 with BOM'
         out.append(t)
     return out
 
@@ -92,22 +100,40 @@ def handwritten():
                     "[- " + line + " -]\n" + body, "[-\n" + line + "\n-]\n" + body,
                     "= S\n" + line + "\n@salt\n", (line + "\n" + body).replace("\n", "\r\n"),
                     line + "\n" + line.replace(": ", ": other ") + "\n"]
+    # byte order mark at offset 0 in front of a fence, an entry, blank lines, a step
+    for rest in ["---\na: 1\n---\n" + body, "---\na: 1\n---\n>> k: v\n" + body, ">> k: v\n" + body, ">> k: v",
+                 ">> [mode]: steps\n" + body, "\n>> k: v\n" + body, "\n\n---\na: 1\n---\n" + body, " \n>> k: v\n",
+                 body + ">> k: v\n", "-- c\n>> k: v\n", "= S\n>> k: v\n", "> t\n>> k: v\n", "---\n---\n", ""]:
+        for nl in ("\n", "\r\n"):
+            out += [BOM + rest.replace("\n", nl), BOM + BOM + rest.replace("\n", nl), rest.replace("\n", nl) + BOM]
+    # a backslash right before the line break on the line above a `>>` line (LF: one Escaped token covering the
+    # line feed, so the `>>` is mid-line for both splitters; CRLF: the backslash escapes the CR only)
+    for above in ["Mix well\\", "Mix @salt{1%g}\\", "Add @salt\\", "#pot{}\\", "~{5%min}\\", "> a note\\", ">\\",
+                  "\\", "= S\\", ">> a: b\\", "-- c\\", "[- c -]\\", "Mix \\\\", "Mix\\ ", "@a{1\\"]:
+        for line in (">> k: v", ">>k:v", ">> [mode]: steps", ">> k"):
+            for nl in ("\n", "\r\n"):
+                out += [above + nl + line + nl, above + nl + line, "x" + nl + above + nl + line + nl + body.replace("\n", nl),
+                        above + nl + line + nl + line.replace("k", "j") + nl,
+                        "---" + nl + "a: 1" + nl + "---" + nl + above + nl + line + nl]
+    # backslash and `>>` on one line
+    out += ["\\>> k: v\n", "\\>> k: v", "x \\>> k: v\n", "\\ >> k: v\n", ">> k\\: v\n", ">> k: v\\\n>> j: w\n", ">>\\ k: v\n",
+            "\\\n>> k: v\n", "\\\r\n>> k: v\r\n", "\\>>\n>> k: v\n"]
     out += ["---\n" + y + "---\n" + body for y in YAML_BLOCKS]
     out += ["---\n" + y + "---\n>> [mode]: steps\n>> [x]: y\n>> k: v\n" + body for y in YAML_BLOCKS]
     return out
 
 
 def enum_lines(maxlen, exts):
-    """enumeration cases for c14mon: every string over ALPHA with length <= maxlen"""
-    ah = hx("".join(ALPHA))
+    """enumeration cases for c14mon: every string over ALPHA_MON with length <= maxlen"""
+    ah = hx("".join(ALPHA_MON))
     ex = ",".join(str(e) for e in exts)
     lines = []
     for n in range(0, maxlen + 1):
         if n <= 3:
             lines.append("E %s %d %s %s" % (ah, n, hx(""), ex))
         else:
-            for a in ALPHA:
-                for b in ALPHA:
+            for a in ALPHA_MON:
+                for b in ALPHA_MON:
                     lines.append("E %s %d %s %s" % (ah, n, hx(a + b), ex))
     return lines
 
@@ -197,7 +223,7 @@ def run(rep, tier, seed):
                 s = common.unhx(h)
                 hits.append((s, "metadata of parse_metadata differs from metadata of parse",
                              {"input": s, "input_hex": h, "ext": int(e), "conv": "e"}))
-    n_strings = sum(len(ALPHA) ** k for k in range(maxlen + 1))
+    n_strings = sum(len(ALPHA_MON) ** k for k in range(maxlen + 1))
 
     # (b) listed inputs, one case per line (debug build: overflow checks and debug assertions on)
     corpus = [common.unhx(c) for c in common.load_corpus(PID)]
@@ -260,7 +286,7 @@ def run(rep, tier, seed):
     rep.coverage.update({
         "evaluations": tot["n"] + len(cases) + ncor + nmap,
         "distinct_nontrivial": len(distinct),
-        "rule": "monitor: all %d strings of length <= %d over the 16-symbol alphabet %r under %d extension sets "
+        "rule": "monitor: all %d strings of length <= %d over the 18-symbol alphabet %r under %d extension sets "
                 "(enumerated inside the harness, release build), plus %d listed inputs (hand-written config-key and "
                 "block-comment placements, front-matter family of %d line combinations, %d generated recipes with "
                 "injected `>>` lines, with/without front matter, LF/CRLF) under the same extension sets, bundled "
@@ -268,7 +294,7 @@ def run(rep, tier, seed):
                 "on %d inputs x %d extension sets, and the metadata maps Model/MetaMap.v computes from them on the same "
                 "inputs x 3 extension sets (documents without front matter); distinct_nontrivial = listed inputs whose metadata-only map is "
                 "non-empty while both parses have output"
-                % (n_strings, maxlen, "".join(ALPHA), len(exts), len(listed), len(fam), len(gen), len(cor_in),
+                % (n_strings, maxlen, "".join(ALPHA_MON), len(exts), len(listed), len(fam), len(gen), len(cor_in),
                    len(cor_exts)),
         "samples": [{"input": s} for s in hand[1:3] + fam[200:202] + gen[:2]],
         "extension_sets": exts,
